@@ -232,13 +232,17 @@ CORRUPT = b'CDF\x01' + b'\xff' * 16
 
 
 def script_of(evs, np_=1):
-    """every event is followed by `barrier` = table probe of the shim"""
+    """every event is followed by `barrier` = table probe of the shim.  -> (text, [(first line number of the event,
+    index of its probe among all MPI_Barrier calls of the run)])   (`junk` also makes a barrier)"""
     L = ['nprocs %d' % np_, 'env PNETCDF_SAFE_MODE=0']
     where = []
+    nb = 0
     for e in evs:
         base = len(L)
         L.extend(e.lines)
-        where.append(base + 1)           # line number of the first line of the event
+        nb += sum(1 for l in e.lines if l.split()[1] == 'junk')
+        where.append((base + 1, nb))
+        nb += 1
         L.append('* barrier')
     return '\n'.join(L) + '\n', where
 
@@ -336,14 +340,14 @@ def judge(evs, where, rc, out, lg, lastline, probes):
     coq, obs, feats = [], [], set()
     def fail(key, what, j):
         fails.append(dict(key=key, what=what, event=j))
-    for j, (e, ln0) in enumerate(zip(evs, where)):
+    for j, (e, (ln0, pj)) in enumerate(zip(evs, where)):
         ln = ln0 + e.cmp
         t = lg.get(ln)
         if e.lit is not None:
             slots[7] = e.lit
         if t is None:
             if rc not in (0,):
-                fail('crash:' + e.what.split()[0], 'the process %s in: %s (exit code %s)%s' % ('hung' if rc == -9 else 'died', e.what, rc,
+                fail('crash:' + (lastline.split()[2] if lastline and len(lastline.split()) > 2 else e.what.split()[0]), 'the process %s in: %s (exit code %s)%s' % ('hung' if rc == -9 else 'died', e.what, rc,
                      (' [' + lastline + ']') if lastline else ''), j)
             else:
                 fail('harness:no-log-line', 'no log line for: ' + e.what, j)
@@ -417,8 +421,8 @@ def judge(evs, where, rc, out, lg, lastline, probes):
                     if irc == 0 and (opname == 'cancel' or (opname == 'wait' and len(t) > 2 and t[2] == '-1')):
                         open_ids[i] = 0
         # table probe after the event
-        if j < len(probes):
-            cnt, listed, ids = probes[j]
+        if pj < len(probes):
+            cnt, listed, ids = probes[pj]
             if cnt != len(open_ids) or listed != len(open_ids) or sorted(ids) != sorted(open_ids):
                 fail('inq_files_opened:mismatch', 'after %s: ncmpi_inq_files_opened says %d files %s, the ids handed out and not released are %s'
                      % (e.what, cnt, sorted(ids)[:12], sorted(open_ids)[:12]), j)
@@ -500,12 +504,16 @@ def run_limit(exe, wd, tag, debug):
             if not (I(v, 'count') == I(v, 'listed') == I(v, 'held') == w and I(v, 'list_bad') == 0):
                 bad.append(('table-listing', 'at "%s": inq_files_opened count %s, listed %s (%s entries not held), ids held by the program %s, expected %s'
                             % (v.get('tag'), v.get('count'), v.get('listed'), v.get('list_bad'), v.get('held'), w)))
+        elif key in ('refused', 'reopen17', 'again') and I(v, 'rc') == 0 and I(v, 'id_bad'):
+            why = {1: 'is outside 0..NC_MAX_NFILES-1: the handle is lost, it can be neither used nor closed', 2: 'is the id of a file that is still open'}[I(v, 'id_bad')]
+            bad.append(('create-open:invalid-id' if I(v, 'id_bad') == 1 else 'create-open:duplicate-id',
+                        '%s (%s #%s, %s ids held by the program) returned NC_NOERR with ncid %s, which %s'
+                        % (v.get('kind'), key, v.get('i'), 'NC_MAX_NFILES' if key == 'refused' else 'fewer than NC_MAX_NFILES', v.get('ncid'), why)))
         elif key == 'refused' and not (I(v, 'rc') == ENFILE and I(v, 'ncid') == -1):
             bad.append(('not-refused', '%s #%s with NC_MAX_NFILES files open: rc %s ncid %s (expected NC_ENFILE, -1)' % (v.get('kind'), v.get('i'), v.get('rc'), v.get('ncid'))))
-        elif key in ('reopen17', 'again') and not (I(v, 'rc') == 0 and I(v, 'id_bad') == 0 and I(v, 'use_rc') == 0):
-            why = {1: 'an id outside 0..NC_MAX_NFILES-1 (the handle is lost)', 2: 'the id of a file that is still open'}.get(I(v, 'id_bad'), '')
-            bad.append(('reopen-after-low-close', '%s %s with a free slot in the table: rc %s, ncid %s %s, first use rc %s'
-                        % (key, v.get('kind'), v.get('rc'), v.get('ncid'), ('= ' + why) if why else '', v.get('use_rc'))))
+        elif key in ('reopen17', 'again') and not (I(v, 'rc') == 0 and I(v, 'use_rc') == 0):
+            bad.append(('reopen-after-low-close', '%s %s with a free slot in the table: rc %s, ncid %s, first use rc %s'
+                        % (key, v.get('kind'), v.get('rc'), v.get('ncid'), v.get('use_rc'))))
         elif key in ('low_close', 'close17') and not (I(v, 'rc') == 0 and I(v, 'after_rc') == EBADID):
             bad.append(('close', '%s of id %s: rc %s, use afterwards rc %s (expected 0, NC_EBADID)' % (key, v.get('ncid'), v.get('rc'), v.get('after_rc'))))
         elif key == 'close_all' and (I(v, 'bad_rc') or I(v, 'still_held')):
@@ -788,19 +796,22 @@ def run(ctx):
         n, name, what, script, j, k = min(items)
         ctx.violation('%s (%d occurrences in %d histories; shortest: %s)' % (what, len(items), len({x[1] for x in items}), name),
                       dict(script=script, history=name, event_index=j, events=ev_dump(hists[k][1]), relation='oracle_ids'), key=key)
-    # 1b. the limit
+    # 1b. the limit (one report per kind of failure, whichever builds show it)
+    groups = {}
     for tag, v in lim.items():
-        groups = {}
         for kk, msg in v['bad']:
-            groups.setdefault(kk, []).append(msg)
-        for kk, msgs in sorted(groups.items()):
-            oracle_failed = True
-            ctx.violation('%d-file harness (%s build): %s%s' % (MAXF, tag, msgs[0], (' (+%d more)' % (len(msgs) - 1)) if len(msgs) > 1 else ''),
-                          dict(harness='c17_limit', build=tag, failures=msgs[:12], output=v['out'], relation='oracle_max_files'), key='max_files:' + kk)
+            groups.setdefault(kk, []).append((tag, msg, v['out']))
         if v['rep'] and not v['bad']:
             for kind, detail in leaks_of(parse_report(v['rep'][-1]), debug=(tag == 'debug')):
                 leak_hits.setdefault(('enfile-refused-create-open', kind), []).append(dict(history='c17_limit ' + tag, detail=detail, residues=v['residues'][:8],
                                                                                            reports=v['rep'], harness='c17_limit', build=tag))
+    for kk, items in sorted(groups.items()):
+        oracle_failed = True
+        tag, msg, outp = items[0]
+        key = kk if kk.startswith('create-open:') or kk.startswith('bad-id:') else 'max_files:' + kk
+        ctx.violation('%d-file harness (%s build%s): %s%s' % (MAXF, tag, 's' if len({x[0] for x in items}) > 1 else '', msg,
+                                                              (' (+%d more observations)' % (len(items) - 1)) if len(items) > 1 else ''),
+                      dict(harness='c17_limit', build=tag, failures=[x[1] for x in items][:12], output=outp, relation='oracle_max_files'), key=key)
     for c in crashes:
         oracle_failed = True
         ctx.violation('the implementation died or hung in %s (rc %s)' % (c['what'], c['rc']),
